@@ -14,7 +14,9 @@
 EXTENDS Orswot, MVReg
 
 CONSTANTS Keys,      \* key universe (the same at every nesting level)
-          MvVals     \* values written into MVReg leaves
+          MvVals,    \* values written into MVReg leaves
+          RmVia      \* BOOLEAN: also generate key removes whose context is the whole-map read context
+                     \* (m.rm(k, m.read_ctx().derive_rm_ctx()) / len() / is_empty()): several removes then share a clock
 
 MapDefault == [clock |-> Zero, entries |-> EmptyFn, deferred |-> {}]
 Has(s, k) == k \in DOMAIN s.entries
@@ -140,6 +142,7 @@ ValOp(e, v, a, ctx, cmd) ==
         LET inner == IF Has(v, cmd.k) THEN v.entries[cmd.k].val ELSE VDefault(e.of) IN
         [kind |-> "up", actor |-> a, counter |-> ctx.counter, key |-> cmd.k,
          op |-> ValOp(e.of, inner, a, ctx, cmd.sub)]                               \* inner.update(k, ctx, f')
+     ELSE IF cmd.c = "rmv" THEN [kind |-> "rm", clock |-> MapReadCtx(v).rm, keys |-> {cmd.k}]   \* inner.rm(k, inner.read_ctx().derive_rm_ctx())
      ELSE [kind |-> "rm", clock |-> MapGet(v, cmd.k).rm, keys |-> {cmd.k}]         \* inner.rm(k, inner.get(&k).derive_rm_ctx())
 
 \* top level: ctx derived from the map's own read context
@@ -157,4 +160,5 @@ ValCmds(e, v) ==
   ELSE UNION {{[c |-> "up", k |-> k, sub |-> sc] :
                   sc \in ValCmds(e.of, IF Has(v, k) THEN v.entries[k].val ELSE VDefault(e.of))} : k \in Keys}
        \cup {[c |-> "rm", k |-> k] : k \in DOMAIN v.entries}
+       \cup (IF RmVia THEN {[c |-> "rmv", k |-> k] : k \in DOMAIN v.entries} ELSE {})
 =============================================================================
